@@ -282,6 +282,23 @@ def build_wrapped(out, harness_src, wraps, flags=None, tag="asan", extra=()):
     return _link(out, ["gcc"] + flags + CFLAGS_COMMON + [f"-I{VERIF}/harness"] + list(extra), srcs + [wl, "-lpthread"])
 
 
+def bounded_map(ex, fn, items, window=None):
+    """like Executor.map, but with at most `window` calls submitted ahead of the consumer: a slow consumer (shrinking a failing case
+    while the rest still runs) no longer lets thousands of finished results — each holding a log — pile up in memory, and when the
+    consumer stops early the remaining cases are never started"""
+    import collections, itertools
+    window = window or 4 * NCPU
+    it = iter(items)
+    q = collections.deque(ex.submit(fn, x) for x in itertools.islice(it, window))
+    while q:
+        f = q.popleft()
+        try:
+            q.append(ex.submit(fn, next(it)))
+        except StopIteration:
+            pass
+        yield f.result()
+
+
 def _sched_stats(prop):
     try:
         from . import sched
